@@ -1,6 +1,6 @@
 #!/bin/bash
 # usage: seedeval.sh Cxx  — confirm a sub-agent's seeded change (tests pass, demo differs) and run the check against it
-id=$1; out=/tmp/seed_out/$id; wt=/tmp/wt_$id
+id=$1; out=${2:-/tmp/seed_out}/$id; wt=/tmp/wt_$id
 echo "== $id: $(python3 -c "import json;print(json.load(open('$out/meta.json')).get('summary','')[:200])" 2>/dev/null)"
 ( cd $wt && cmake --build _build -j16 >/dev/null 2>&1; ctest --test-dir _build -j8 2>&1 | grep "tests passed" )
 if [ -f $out/demo.cpp ]; then
